@@ -2,25 +2,26 @@
 
 MC : JsonDocMC  the push-down recogniser that judges executions == recursive descent over the RFC 8259
                 productions, on every kind sequence up to the bound; lexical table
-     JsonSep    design model of the separator logic (parser state stack x needComma x skipComma):
-                D => A for every valid text up to the bound, per-action coverage; error branches with
-                unconstrained inputs
-     JsonGen    generator automaton of valid texts over a lexeme table (duplicate keys, -0, 1E+2, 0.50,
-                "\"", 1e-3 ...) with the sanity invariants of the value relation; its dump is the input set
+     JsonSep    design model of the separator logic (parser state stack x needComma x skipComma), one action per
+                branch of Parser.Next: D => A for every valid text up to the bound, per-action coverage; error
+                branches with unconstrained inputs; its functional form JsonSepFn.DRun == the action system
      JsonNumFix design model of the number branch (leading-zero repair of Number's result) over the generator
                 automaton of the number grammar (NumGen, shared with C08); its dump gives the number lexemes
+     JsonGen    generator automaton of valid texts over a lexeme table (duplicate keys, -0, 1E+2, 0.50,
+                "\"", 1e-3 ...) with the sanity invariants of the value relation; its dump is the input set;
+                -simulate walks (biased variant) far beyond the bound
 GEN: the above rendered with whitespace variants and option/API variants, number lexemes embedded in
-     contexts, exponents at the int32/int64 borders, json_test.go inputs, tests/json/corpus,
-     _benchmarks/*.json (whole, windowed; and cut into sub-values)
+     contexts, exponents at the int32/int64 borders, string pool with every escape, nesting to depth 8000,
+     json_test.go inputs, tests/json/corpus, _benchmarks/*.json (whole, windowed; and cut into sub-values)
 RUN: harness/cmd/c07 calls the real json.Minify / Minifier.Minify / M.Minify / M.Bytes
-TV : C07Trace evaluates ValidText / JsonEq / the length clause (spec/JsonDoc.tla) on every recorded call.
+TV : C07Trace evaluates ValidText / JsonEq / the length clause (spec/JsonDoc.tla) on every recorded call, and
+     compares the design model's prediction with the tokens the code wrote (drift = information only).
 """
 import json
 import os
 import re
 import threading
 import time
-from concurrent.futures import ThreadPoolExecutor
 
 import vlib
 
@@ -178,7 +179,23 @@ def number_lexemes(ctx, ndump, simdir):
     small = [mnt + b'e' + str(e).encode() for mnt in mants for e in range(-12, 13)]
     border.update(x for x in small if JSON_NUM.match(x))
     assert all(JSON_NUM.match(x) for x in border)
-    return sorted(exh), sorted(sim), sorted(border), srclen
+    # the case analysis of minify.Number (4 print cases x dot position x exponent sign): significant digits x
+    # position of the dot (leading zeros after it / trailing zeros before it) x exponent x sign
+    grid = set()
+    digs = b'1234567891234567'
+    exps = [None, 0] + [sg * v for v in (1, 2, 3, 4, 5, 6, 9, 10, 11, 15, 99, 100) for sg in (1, -1)]
+    for n in (1, 2, 3, 4, 5, 6, 8, 10, 12, 15):
+        d = digs[:n]
+        mant = [b'0.' + b'0' * k + d for k in (0, 1, 2, 3, 5)] + [d + b'0' * z for z in (0, 1, 2, 3, 5)]
+        mant += [d[:p] + b'.' + d[p:] for p in range(1, n)] + [d + b'.0', d + b'.' + d[::-1] + b'00']
+        for mnt in mant:
+            for e in exps:
+                es = b'' if e is None else ctx.rnd.choice([b'e', b'E', b'e+' if e >= 0 else b'e']) + str(e).encode()
+                for sign in (b'', b'-'):
+                    grid.add(sign + mnt + es)
+    assert all(JSON_NUM.match(x) for x in grid)
+    grid -= border
+    return sorted(exh), sorted(sim), sorted(border), srclen, sorted(grid)
 
 
 def render(toks, mode, rnd):
@@ -335,15 +352,18 @@ def gen_cases(ctx, exe, lex, gdump, ndump, simdir, gsimdir, B):
         if len(g.cases) >= B:
             yield g.take()
     del texts
-    exh, sim, border, srclen = number_lexemes(ctx, ndump, simdir)
-    ctx.coverage['number_lexemes'] = dict(exhaustive=len(exh), simulated=len(sim), border=len(border))
-    allnum = exh + sim + border
+    exh, sim, border, srclen, grid = number_lexemes(ctx, ndump, simdir)
+    ctx.coverage['number_lexemes'] = dict(exhaustive=len(exh), simulated=len(sim), border=len(border), case_grid=len(grid))
+    allnum = exh + sim + border + grid
+    gridset = set(grid)
     borderset = set(border)
     top = max(srclen.values())
     for i, n in enumerate(allnum):
         longest = i < len(exh) and srclen[n] >= top
         if longest and rnd.random() >= (1 / 6 if q else 1 / 2):
             continue        # all lexemes below the top NumGen length (quick 6, thorough 7), a seeded part of the top length
+        if q and n in gridset and rnd.random() >= 1 / 2:
+            continue        # quick: a seeded half of the case grid
         n2 = allnum[(i * 7 + 3 + ctx.seed) % len(allnum)]
         k = i + ctx.seed
         g.add(contexts(n, n2, k), False, 'num')
@@ -535,6 +555,7 @@ class Stats:
         self.longer_nokeep = 0
         self.longer_sample = None
         self.drift = 0
+        self.drift_sample = None
         self.err_on_valid = 0
         self.by_src = {}
         self.samples = []
@@ -571,6 +592,14 @@ def judge(ctx, cases, lines, st=None):
     for di, whys in tlc_docs(ctx, multi).items():
         rejected[di] = whys
     tick(ctx, 'windowed texts validated (%d)' % len(multi))
+    # "drift" = the design model JsonSep does not predict what the code wrote: information, never a verdict
+    drifted = set(i for i, w in rejected.items() if 'drift' in w)
+    rejected = {i: [x for x in w if x != 'drift'] for i, w in rejected.items()}
+    rejected = {i: w for i, w in rejected.items() if w}
+    if st is not None:
+        st.drift += len(drifted)
+        if drifted and st.drift_sample is None:
+            st.drift_sample = ident(cases[min(drifted)])
     last = {}
     for i in order:
         ll = groups[i][-1]
@@ -606,8 +635,6 @@ def judge(ctx, cases, lines, st=None):
                         st.longer_nokeep += 1
                         if st.longer_sample is None and 'text' in c:
                             st.longer_sample = c['text'].decode('latin1')
-                    if e['ows'] or e['err']:
-                        st.drift += 1
                     if e['err']:
                         st.err_on_valid += 1
                     if 'text' in c and len(st.samples) < 8 and st.docs % 4099 == 1:
@@ -683,10 +710,10 @@ def run(ctx):
         if rejected:
             reproduced += confirm(ctx, exe, batch, rejected)
     if st.drift:
-        vlib.log('DRIFT: %d in-scope texts where the code deviates from the design model JsonSep '
-                 '(whitespace in the output or an error on a valid text)' % st.drift)
+        vlib.log('DRIFT: %d texts where the code deviates from the design model JsonSep (error/no error, tokens '
+                 'written, whitespace in the output), e.g. %r - information, not a verdict' % (st.drift, st.drift_sample))
     srcs = ('generated texts (JsonGen dump, %s grammar tokens, whitespace variants), number lexemes (NumGen dump jsonified, '
-            'simulate walks to length 40, int32/int64 exponent borders) in 12 contexts and packed arrays, json_test.go inputs, '
+            'simulate walks to length 40, int32/int64 exponent borders, a grid digits x dot position x exponent x sign) in 12 contexts and packed arrays, json_test.go inputs, '
             'tests/json/corpus and _benchmarks/*.json whole and cut into sub-values' % ('<=6' if ctx.quick() else '<=7'))
     ctx.coverage.update(dict(
         traces_validated_against_impl=st.accepted_lines,
@@ -701,6 +728,7 @@ def run(ctx):
         rejections=total_rej,
         rejections_reproduced=reproduced,
         design_drift=st.drift,
+        design_drift_sample=st.drift_sample,
         errors_returned_on_valid_texts=st.err_on_valid,
         info_longer_output_without_number_keeping=st.longer_nokeep,
         info_longer_output_sample=st.longer_sample,
@@ -742,8 +770,9 @@ META = dict(
     category='model_checking',
     text='RFC 8259 is specified in TLA+ on raw token sequences (lexical DFAs, push-down recogniser, value relation JsonEq with '
          'exact rational equality of numbers from NumVal). TLC (1) checks the recogniser against a recursive-descent formulation '
-         'of the grammar on every kind sequence up to the bound, (2) model-checks a design model of the separator logic '
-         '(parser state stack x needComma x skipComma) against the abstract relation with per-action coverage, (3) enumerates '
+         'of the grammar on every kind sequence up to the bound, (2) model-checks design models of the separator logic '
+         '(parser state stack x needComma x skipComma) and of the number repair against the abstract relation with '
+         'per-action coverage, (3) enumerates '
          'every valid text up to the token bound over a lexeme table as inputs, and (4) evaluates ValidText/JsonEq/length on '
          'the recorded input and output lexemes of every real json.Minify call (both KeepNumbers settings, four API variants).',
     design_ref='DESIGN.md section 4, C07',
